@@ -39,6 +39,9 @@ def gen_session(prop: str, tier: str, seed: int) -> dict:
         m = rng.randrange(1, n + 4)
         if prop == 'C14' and rng.chance(0.6):
             m = rng.randrange(1, n + 1)
+        if ops and rng.chance(0.3):
+            # same routine, same shape as the previous call (a caller iterating with fixed sizes)
+            kind, m = ops[-1]['op'], ops[-1]['m']
         mag = rng.uniform(0.05, 4.0)
         kd = rng.pick(['imag', 'imag', 'real', 'complex'])
         if kd == 'imag':
@@ -56,6 +59,7 @@ def gen_session(prop: str, tier: str, seed: int) -> dict:
         op = {'op': kind, 'm': m, 'dt': dt, 'cb': cb, 'vsub': rng.sub(),
               'vstyle': rng.wpick([('generic', 5), ('real', 1.5), ('confined', 3), ('eigvec', 1), ('unit', 1)]),
               'confine': rng.randrange(1, n + 1), 'hermitian_flag': bool(herm and rng.chance(0.75)), 'numeig': rng.randrange(1, 4),
+              'persist': rng.chance(0.3), 'step': rng.pick(['v_inplace', 'v_inplace', 'A_inplace', 'none']),
               'vscale': rng.pick([1.0, 1.0, 0.25, 8.0, 1e-3, 1e3]), 'vdtype': rng.pick(['complex', 'complex', 'float', 'float', 'int'])}
         env_kinds = [k for k in ('EIGSIGN', 'ULP') if k in enabled and rng.chance(0.5)]
         op['env'] = {'gauge': rng.sub(), 'kinds': env_kinds}
@@ -210,6 +214,17 @@ class KRSession(SessionBase):
             exc = e
         finally:
             self.env.end_op()
+        # history: what an earlier call returned stays what it was (results kept by the caller)
+        prev = getattr(self, '_kept', None)
+        if prev is not None:
+            arrays, snaps, pprop, pwhat = prev
+            same = all(a.tobytes() == b for a, b in zip(arrays, snaps))
+            self.check(same, pprop, 'earlier_result_overwritten', f'arrays returned by the previous {pwhat} call were modified by a later Krylov call')
+        self._kept = None
+        if exc is None and res is not None:
+            arrs = [np.asarray(x) for x in (res if isinstance(res, tuple) else (res,)) if isinstance(x, np.ndarray)]
+            prop = 'C14' if op['op'] in ('lanczos', 'arnoldi') else 'C15'
+            self._kept = (arrs, [a.tobytes() for a in arrs], prop, op['op'])
         return res, exc
 
     def prep(self, op):
@@ -217,6 +232,24 @@ class KRSession(SessionBase):
         m = int(op['m'])
         cbk = op['cb'] if op['cb'] in self.env.enabled or op['cb'] == 'fresh' else 'fresh'
         cb = Callback(self.A, cbk)
+        if op.get('persist'):
+            # history: a caller iterating with ONE callback object and ONE vector array that it updates in place
+            # (time stepping loop  v[:] = expm_krylov(f, v, ...),  or an operator array scaled in place behind the closure)
+            st = getattr(self, 'persist', None)
+            if st is None:
+                st = self.persist = {'cb': Callback(self.A, 'fresh'), 'v': np.array(v, dtype=complex)}
+            else:
+                how = op.get('step', 'v_inplace')
+                if how == 'v_inplace':
+                    last = getattr(self, 'last_vec_result', None)
+                    st['v'][:] = last if (last is not None and last.shape == st['v'].shape and np.all(np.isfinite(last)) and np.linalg.norm(last) > 0) else v
+                elif how == 'A_inplace' and self.cfg['style'] in ('random', 'real', 'normal', 'lowrank', 'triangular'):
+                    self.A *= [2.0, 0.5][int(op['vsub']) % 2]
+                    self.normA = float(np.linalg.norm(self.A, 2))
+            cb = st['cb']
+            v = st['v']
+            cbk = 'fresh'
+            self.probe('persistent_callback_and_vector')
         self.ctx = {'callback': cbk}
         if cbk != 'fresh':
             self.env.fire(cbk)
@@ -324,4 +357,6 @@ class KRSession(SessionBase):
             self.skip('krylov_grey_zone')
             return 'grey'
         self.report('C15', ko.check_expm_krylov(self.A, vb, dt, m, hflag, out, cls, K, normA), 'expm_krylov', cls, m)
+        r_ = np.asarray(out)
+        self.last_vec_result = r_ / np.linalg.norm(r_) if r_.shape == (self.n,) and np.all(np.isfinite(r_)) and np.linalg.norm(r_) > 0 else None
         return 'ok'
